@@ -37,6 +37,9 @@ Int32Vals == {0, 1, -1, 127, 128, 255, 256, 65535, 16777216, -16777216, 16909060
 BoardCalls ==
   {C("var_write_int32", <<v, i>>, "") : v \in Int32Vals, i \in {0, 1, 27, 28}} \cup {C("var_read_int32", <<i>>, "") : i \in {0, 1, 27, 28}}
   \cup {C("write_nickname", <<>>, nm) : nm \in {"Axi", "East Wing", ""}} \cup {C("query_nickname", <<>>, "")}
+BoardCallsSmall ==
+  {C("var_write_int32", <<v, i>>, "") : v \in {0, -1, 255, 256, -16909060, 2147483647}, i \in {0, 2, 28}} \cup {C("var_read_int32", <<i>>, "") : i \in {0, 2, 28}}
+  \cup {C("var_write", <<200, 3>>, ""), C("write_nickname", <<>>, "Axi"), C("query_nickname", <<>>, "")}
 MotorCalls == {C("motors_enable", <<r1, r2>>, "") : r1 \in (-1)..6, r2 \in (-1)..6} \cup {C("motors_disable", <<>>, ""), C("motors_query_enabled", <<>>, "")}
 MinVer302 == <<3, 0, 2>>
 Burst3 == {0, 1, 25, 26}
